@@ -10,13 +10,17 @@ UNIT = dict(
     fns={
         "execute_with_hedging": dict(rules=[
             ("sub", "R9-paths", r"use tokio::sync::mpsc;", "", 1),
-            ("sub", "R9-paths", r"mpsc::channel::<\(usize, Result<S::Response, S::Error>\)>\(max_attempts\)", "channel(max_attempts, Tracked(tr))", 1),
+            ("sub", "R9-paths", r"mpsc::channel::<\(usize, Result<S::Response, S::Error>\)>\(([^()]*)\)", r"channel(\1, Tracked(tr))", 1),
+            ("inject", r"let \(tx, mut rx\) = channel\([^;]*;", "after", "let ghost vx_roomy = tr.chan_cap >= max_attempts;", 1),
             ("sub", "R16-local-type", r"let mut primary_error: Option<S::Error> = None;", "let mut primary_error: Option<E> = None;", 1),
             ("R17-spawn", 3),
+            ("sub", "R17-spawn-instant", r"proof \{ tr\.spawned = tr\.spawned \+ 1; \}", "vx_tick(clk); proof { tr.spawned = tr.spawned + 1; tr.spawn_at = tr.spawn_at.push(clk.now@); }", 3),
+            ("addarg", ["try_send"], TR, -1),
             ("R17-select", 1),
-            ("sub", "R13-pin", r"std::pin::pin!\(tokio::time::sleep\(delay\)\)", "sleep(delay)", 1),
-            ("sub", "R13-pin", r"delay_fut\.set\(tokio::time::sleep\(next_delay\)\)", "delay_fut = sleep(next_delay)", 1),
-            ("sub", "R13-pin", r"\(&mut delay_fut\)\.vx_await\(", "delay_fut.vx_await_mut(", 1),
+            ("sub", "R13-pin", r"std::pin::pin!\(tokio::time::sleep\(delay\)\)", "sleep(delay, clk)", 1),
+            ("sub", "R13-pin", r"delay_fut\.set\(tokio::time::sleep\(([^()]*)\)\)", r"delay_fut = sleep(\1, clk)", -1),
+            ("sub", "R13-pin", r"delay_fut\.as_mut\(\)\.", "delay_fut.", -1),
+            ("sub", "R13-pin", r"\(&mut delay_fut\)\.vx_await\(", "delay_fut.vx_await_mut(clk, ", 1),
             ("sub", "R10-guard", r"match first_delay \{\s*Some\(delay\) if delay > Duration::ZERO => \{", "match vx_positive_delay(first_delay) { Some(delay) => {", 1),
             ("sub", "R10-closure", r"primary_error\.unwrap_or_else\(\|\| e\.clone\(\)\)", "(match primary_error { Some(vx_pe) => vx_pe, None => e.clone() })", 1),
             ("sub", "expect", r"\.expect\(\"[^\"]*\"\)", ".unwrap()", 1),
@@ -34,6 +38,9 @@ UNIT = dict(
                         tr.queue.len() + tr.recv_err == tr.spawned,   // #every_started_attempt_reports_exactly_once [C12]
                         forall|i: int| 0 <= i < tr.reqs.len() ==> tr.reqs[i] == req,   // #every_attempt_carries_the_request [C12,C20]
                         failures == tr.recv_err,   // #counts_every_reported_failure [C12]
+                        tr.spawn_at.len() == tr.spawned && clk.now@ >= tr.spawn_at[hedges_spawned as int], vx_roomy == (tr.chan_cap >= max_attempts),
+                        spaced_starts(tr.spawn_at, config.delay),   // #each_hedge_starts_no_earlier_than_its_delay_after_the_previous_start [C12]
+                        hedges_spawned + 1 < max_attempts && delay_spec(config.delay, (hedges_spawned + 1) as usize) is Some ==> delay_fut.deadline@ >= tr.spawn_at[hedges_spawned as int] + dl(config.delay, (hedges_spawned + 1) as usize),   // #timer_armed_for_the_full_delay_after_the_latest_start [C12]
                     ensures false,   // the loop is left only by returning: the channel cannot close while this function holds a sender
                     """,
                 1: """invariant
@@ -43,6 +50,7 @@ UNIT = dict(
                         tr.recv_ok == 0 && tr.recv_err == 0 && tr.queue.len() == tr.spawned && tr.slept == 0,   // #parallel_mode_starts_all_attempts_at_once [C12]
                         forall|i: int| 0 <= i < tr.reqs.len() ==> tr.reqs[i] == req,   // #every_attempt_carries_the_request [C12,C20]
                         primary_error is None,
+                        tr.spawn_at.len() == tr.spawned && vx_positive_delay_spec(delay_spec(config.delay, 1)) is None, vx_roomy == (tr.chan_cap >= max_attempts),
                     """,
                 2: """invariant
                         !tr.tx_alive && tr.unguarded == 0,
@@ -51,6 +59,7 @@ UNIT = dict(
                         tr.queue.len() + tr.recv_err == tr.spawned,   // #every_started_attempt_reports_exactly_once [C12]
                         tr.recv_err > 0 ==> primary_error is Some,
                         attempts_received == tr.recv_err && tr.recv_err <= tr.spawned,
+                        tr.spawn_at.len() == tr.spawned && (tr.spawned == 1 || vx_positive_delay_spec(delay_spec(config.delay, 1)) is None),
                         forall|i: int| 0 <= i < tr.reqs.len() ==> tr.reqs[i] == req,
                     ensures tr.queue.len() == 0 && tr.recv_err == tr.spawned,   // #gives_up_only_after_every_started_attempt_has_reported_failure [C12]
                     """,
